@@ -57,6 +57,7 @@ import Proofs.Lemmas.WalkTop
 import Proofs.Lemmas.WalkValid3
 import Proofs.Lemmas.WalkYield
 import Proofs.Lemmas.WalkNames
+import Proofs.Lemmas.WalkFrame
 import Proofs.Lemmas.GramXPath
 import Proofs.Lemmas.ParseGram
 import Proofs.Lemmas.ParseRender
@@ -956,17 +957,16 @@ theorem abbreviations_in_the_forest :
   ⟨abbrev_at, abbrev_child, abbrev_dotdot, fun _ h w => abbrev_dslash_absolute h w⟩
 
 open Xsel.Walk in
-/-- `r//S` and `F//r` (the walk of `r` / `F` leaves the document alone: `hframe`, true of every derivation tree) -/
-theorem dslash_in_the_forest (r F : PT) (k : PTs) (w : WCtx) (hr : r.isNt = true) (hF : F.isNt = true)
-    (hfr : ∀ w1, walk Expect.handlers r w = .ok w1 → w1.c.a = w.c.a)
-    (hfF : ∀ w1, walk Expect.handlers F w = .ok w1 → w1.c.a = w.c.a) :
+/-- `r//S` and `F//r`, for ANY trees `r` and `F` (that their walk leaves the document alone is `Walk.walk_frame`) -/
+theorem dslash_in_the_forest (r F : PT) (k : PTs) (w : WCtx) (hr : r.isNt = true) (hF : F.isNt = true) :
     walk Expect.handlers (N "RelativeLocationPath" [N "AbbreviatedRelativeLocationPath" [r, tkp .dslash, .nt "Step" k]]) w =
       walk Expect.handlers (N "RelativeLocationPath" [N "RelativeLocationPathWithStep"
         [N "RelativeLocationPath" [N "RelativeLocationPathWithStep" [r, tkp .slash, dosStep]], tkp .slash, .nt "Step" k]]) w ∧
     (∀ r', Spine r' →
       walk Expect.handlers (N "PathExpr" [N "PathExprFilterWithAbbreviatedPath" [F, tkp .dslash, r']]) w =
       walk Expect.handlers (pathNode (.filt F) (graft dosStep r')) w) :=
-  ⟨abbrev_dslash_relative r k w hr hfr, fun _ h => abbrev_dslash_filter F h w hF hfF⟩
+  ⟨abbrev_dslash_relative r k w hr (fun w1 h => (walk_frame _ r w w1 h).1),
+   fun _ h => abbrev_dslash_filter F h w hF (fun w1 h' => (walk_frame _ F w w1 h').1)⟩
 
 open Xsel.Walk in
 /-- **reserved_names_in_the_forest** — a name that SPELLS A KEYWORD (`child`, `text`, `self`, …) is a keyword
